@@ -367,10 +367,19 @@ Section Serde.
     end.
 
   (* ---------------------------------------------------------------- ser *)
+  (* generate_serde_attr chooses skip_serializing_if by the member's type,
+     looking through one Box (cycle breaking may have re-pointed the member at
+     Box<Option<T>>; fix b9da3ef) *)
+  Definition unbox_det (i : id) : option details :=
+    match get_det T i with
+    | Some (DBox t) => match get_det T t with Some d => Some d | None => Some (DBox t) end
+    | d => d
+    end.
+
   Definition skip_if (p : prop) (x : rval) : bool :=
     match p_state p with
     | POptional =>
-        match get_det T (p_ty p), x with
+        match unbox_det (p_ty p), x with
         | Some (DOption _), ROptNone => true
         | Some (DVec _), RSeq [] => true
         | Some (DMap _ _), RMap [] => true
